@@ -131,6 +131,23 @@ def run(prog: Program, rep: Report, tier: str) -> None:
             rep.ob('C15-D4 shape-preserved', f.fq(), norm(c), f.loc(c), lab_ok and order_ok,
                    'copy keeps the label and maps the attachment nodes through node_map in order' if lab_ok and order_ok else
                    f"label preserved: {lab_ok}; attachment nodes mapped in order without filtering: {order_ok}")
+    # D2b: what enters the host is a freshly constructed object on every path (never the rule's own node / edge object)
+    def fresh_sources(lp: ast.For, arg: ast.AST, ctor: str) -> Optional[str]:
+        exprs = [arg]
+        if isinstance(arg, ast.Name):
+            exprs = [a.value for a in ast.walk(lp) if isinstance(a, ast.Assign) and any(isinstance(t, ast.Name) and t.id == arg.id for t in a.targets)]
+            if not exprs:
+                return f"`{arg.id}` is not built inside the loop"
+        for e in exprs:
+            if not (isinstance(e, ast.Call) and callee_last(e) == ctor):
+                return f"`{norm(e)[:80]}` is not a new {ctor}(...) on every path"
+        return None
+    for lp, what, ctor in [(l, 'add_node', 'Node') for l in node_loops] + [(l, 'add_edge', 'Edge') for l in edge_loops]:
+        for c in [x for x in ast.walk(lp) if isinstance(x, ast.Call) and callee_last(x) == what and x.args]:
+            why = fresh_sources(lp, c.args[0], ctor)
+            rep.ob('C15-D2 fresh-id', f.fq(), f"{norm(c)[:80]}: the object added to the host is a new {ctor}", f.loc(c), why is None,
+                   'constructed in this iteration, so it has its own identity and id' if why is None else
+                   f"{why}: an object of the rule itself can enter the host graph, and a second use of the same rule then clashes with (or aliases) the first")
     # D4: externals paired with attachments
     zl = [l for l in loops if isinstance(l.iter, ast.Call) and callee_last(l.iter) == 'zip']
     ok = False
